@@ -68,3 +68,14 @@ pub fn c01_triple_roundtrip_holds(y: i32, m: u32, d: u32) {
     assume(!lex_lt(y2, m2, d2, y, m, d) || spec_rd(y2, m2, d2) < spec_rd(y, m, d));
     assert!(y2 == y && m2 == m && d2 == d);
 }
+
+/// contract of year_doy_to_days used by the C18 rule obligations (inner years)
+pub fn c18_year_doy_contract_holds(y: i32, doy: u32, ign: bool) {
+    assume(MIN_Y < y && y < MAX_Y && y != 0);
+    let r = crate::util::date::convert::year_doy_to_days(y, doy, ign);
+    let ok = r.is_ok();
+    assert!(contract_year_doy_to_days(y, doy, ign as u8, ok, r.unwrap_or(0)));
+}
+pub fn c18_is_leap_contract_holds(y: i32) {
+    assert!(contract_is_leap_year(y, crate::util::leap::is_leap_year(y)));
+}
